@@ -1093,10 +1093,19 @@ package gocql
 //@   assume typeis(info, TupleTypeInfo)
 //@   assume forall(k, 0 <= k && k < len(unbox(info, TupleTypeInfo).Elems), unbox(info, TupleTypeInfo).Elems[k] != nil)
 //@   assume typeis(value, []interface{}) ==> len(unbox(value, []interface{})) >= len(unbox(info, TupleTypeInfo).Elems)
+// UDT field framing (the field values themselves go through Unmarshal / reflection): every field of the type,
+// in the type's order, takes exactly one [bytes] item off the data - whether or not the destination has a place
+// for it - and what is decoded for a field is that item with the field's type.
 //@ func unmarshalUDT
 //@   props C05
+//@   count_calls readBytes Unmarshal UnmarshalUDT
 //@   requires info != nil
 //@   nonnil_payload value
+//@   loop 0: step[C12,C02] readBytes_calls == prev(readBytes_calls) + 1
+//@   loop 1: step[C12,C02] readBytes_calls == prev(readBytes_calls) + 1
+//@   loop 3: step[C12,C02] readBytes_calls == prev(readBytes_calls) + 1
+//@   before[C12,C02] UnmarshalUDT: same(arg2, readBytes_ret0) && arg0 == e.Name && arg1 == e.Type
+//@   before[C12,C02] Unmarshal: same(arg1, readBytes_ret0) && arg0 == e.Type
 //@   assume typeis(info, UDTTypeInfo)
 //@   assume forall(k, 0 <= k && k < len(unbox(info, UDTTypeInfo).Elements), unbox(info, UDTTypeInfo).Elements[k].Type != nil)
 // [bytes] inside a tuple/UDT cell: 4-byte length n, then n bytes (n < 0: null).
